@@ -14,6 +14,11 @@ from urllib.parse import parse_qs
 time.sleep(float(os.environ.get("VERIF_BOOT_SLEEP", "0") or 0))
 
 
+# an application that cannot be loaded once the flag file exists (a broken release handed to USR2)
+if os.path.exists(os.environ.get("VERIF_BROKEN_FLAG", "/nonexistent/flag")):
+    raise RuntimeError("vapp: broken release")
+
+
 def ident():
     return ("pid=%d marker=%s ruid=%s rgid=%s groups=%s" % (
         os.getpid(), os.environ.get("VERIF_MARKER", "-"), ",".join(map(str, os.getresuid())),
